@@ -227,6 +227,9 @@ class Generator(Curve, Point):
                     recid += 2
                 return r, s, recid
             k += 1
+            if k >= n:  # type: ignore[operator]
+                # stay inside [1, n-1]: n*G is the point at infinity
+                k = 1
 
     def sign(
         self,
